@@ -39,15 +39,12 @@ Definition iso_tables : tables :=
   mkTables 8 [(1, 0, -1, -1); (0, 1, -1, -1)]%Z [(0%Z, 8%Z, 1%nat, 0%nat)] [] [] [] 0.
 Definition iso_opts : opts := mkOpts false false true true true false true true true.
 
-Lemma simplify_isolated_root_refuted_lemma :
-  exists t smp o,
-    o_kir o = true /\ o_rts o = true /\ o_fn o = true /\ o_fs o = false /\
-    unreferenced_nodes (simplify_spec t smp o) smp <> [] /\
-    spec_idempotent_on t smp o = false.
-Proof.
-  exists iso_tables, [0]%nat, iso_opts.
-  repeat split; try reflexivity; vm_compute; discriminate.
-Qed.
+(* after the repair of simplifier_insert_input_roots (fix: C04-isolated-root) the root is
+   rewound: no unreferenced node, and the case is a fixed point *)
+Example isolated_root_repaired :
+  unreferenced_nodes (simplify_spec iso_tables [0]%nat iso_opts) [0]%nat = [] /\
+  spec_idempotent_on iso_tables [0]%nat iso_opts = true.
+Proof. split; vm_compute; reflexivity. Qed.
 
 (* ---- samples[k] becomes node k when nodes are filtered ----------------------------- *)
 Lemma index_of_app_l u l1 l2 k : In u l1 -> index_of u (l1 ++ l2) k = index_of u l1 k.
